@@ -324,3 +324,26 @@ func FuncValuesOfVar(info *types.Info, body ast.Node, v *types.Var) []*types.Fun
 	}
 	return out
 }
+
+// Equality views an edge as "l == r is eq": the case edge of a tagged switch (`switch l { case r: }`)
+// and the edge of a comparison `l == r` / `l != r` say the same thing; rules that ask "is this the
+// edge where the action is Shutdown" should not care which of the two the author wrote.
+func Equality(e *Edge) (l, r ast.Expr, eq bool, ok bool) {
+	if e == nil || e.Cond == nil {
+		return nil, nil, false, false
+	}
+	if e.Tag != nil {
+		return e.Tag, e.Cond, e.Sense, true
+	}
+	x, y, op, isCmp := Cmp(e.Cond)
+	if !isCmp {
+		return nil, nil, false, false
+	}
+	switch op {
+	case token.EQL:
+		return x, y, e.Sense, true
+	case token.NEQ:
+		return x, y, !e.Sense, true
+	}
+	return nil, nil, false, false
+}
